@@ -4,7 +4,7 @@ CONSTANT N2s = {2}
 CONSTANT Ks = {0}
 CONSTANT MaxRank = 1
 CONSTANT MaxCand = 1
-CONSTANT NCs = {1, 2, 3}
+CONSTANT NCs = {1, 3, 4}
 CONSTANT NBs = {1, 2, 3}
 CONSTANT Ss = {3, 4}
 CONSTANT Wrap = TRUE
